@@ -168,6 +168,37 @@ Theorem C06_history_from_new : forall (key val : Type) (keq : key -> key -> bool
 Proof. exact @history_from_new. Qed.
 Print Assumptions C06_history_from_new.
 
+(* several live objects and json_global_set_string_hash between any two operations:
+   every object keeps the hash function it was created with (WInv: each table satisfies
+   the invariant for hashes (o_sel ob)), so each object is the association list of its
+   own operations and the selection is invisible; for every family of hash functions *)
+Theorem C06_world_step_refines : forall (key val : Type) (keq : key -> key -> bool) (hashes : Z -> key -> Z),
+  (forall a b, keq a b = true <-> a = b) ->
+  forall (al : alloc) (w : world key val) (g : gop key val),
+  WInv hashes w -> gop_pre keq w g ->
+  exists w' b, gstep keq hashes al w g = Some (w', b) /\ WInv hashes w' /\
+               world_abs w' = gspec_step keq (world_abs w) g b.
+Proof. exact @gstep_refines. Qed.
+Print Assumptions C06_world_step_refines.
+
+Theorem C06_world_history_refines : forall (key val : Type) (keq : key -> key -> bool) (hashes : Z -> key -> Z),
+  (forall a b, keq a b = true <-> a = b) ->
+  forall (al : alloc) (gs : list (gop key val)) (w : world key val),
+  WInv hashes w -> gadm_run keq hashes al w gs ->
+  exists w' oks, grun keq hashes al w gs = Some (w', oks) /\ WInv hashes w' /\
+                 world_abs w' = gspec_run keq (world_abs w) gs oks /\ length oks = length gs.
+Proof. exact @grun_refines. Qed.
+Print Assumptions C06_world_history_refines.
+
+Theorem C06_world_nonvacuous :
+  let hs := fun s k => if s =? 0 then k else 3 * k + 1 in
+  exists w oks, grun Z.eqb hs (fun _ => true) (world0 Z Z) ex_gops = Some (w, oks) /\
+    world_abs w = [[(1, 11); (3, 30)]; [(2, 7); (1, 6)]] /\ map o_sel (objs w) = [0; 1] /\ g_sel w = 0 /\
+    oks = [true; true; true; true; true; true; true; false; true; true; true; true; true] /\
+    gspec_run Z.eqb [] ex_gops oks = [[(1, 11); (3, 30)]; [(2, 7); (1, 6)]].
+Proof. exact ex_world. Qed.
+Print Assumptions C06_world_nonvacuous.
+
 (* non-vacuity: a colliding-hash history from size 1 with growth, a refused growth, a
    refused key copy, replace, delete, delete-while-iterating *)
 Theorem C06_nonvacuous :
